@@ -19,6 +19,7 @@ EXPLANATION = (
     "dispatches to and delegate to the matching operator; (R7.6) namespace agreement of the two engines. The compiled engine "
     "is Python's own eval; its namespace wiring is checked. NOT decided: value-level agreement on generated programs, helper "
     "function semantics."
+    " Also decided (rules added after the fifth blind round): (R7.7) a typed matcher built for a nested record receives the whole query (type path and attribute chain) of the matcher that builds it; (R7.8) the interpreted namespace, in which generator variables are bound, is rebuilt before every evaluation."
 )
 RULE_SUMMARY = ("instances: (node kind, field) pairs, table entries, special methods; non-trivial = required reading a branch "
                 "body, a lambda or a method body")
